@@ -71,6 +71,30 @@ Theorem C09_send_tx_exact :
 Proof. exact send_tx_exact. Qed.
 Print Assumptions C09_send_tx_exact.
 
+(* 1c. ... and from the bytes on the wire: a body that lexes to the request object
+       {jsonrpc, id, "eth_sendTransaction", [p0, ...]} yields one HTTP reply carrying the id and
+       exactly the frames of theorem 1 (or, on failure, no submission, status 500 and no result). *)
+Theorem C09_send_tx_end_to_end :
+  forall parse_int lex accounts sign_with backend chain H ecrecover body order ver id p0 rest tx f a,
+    wallet_sound H ecrecover accounts sign_with chain ->
+    (forall a t c, sign_with a t c <> Panic) ->
+    (b2n (sniffFirstByte body) =? 91)%N = false ->
+    lex body = Some (request_tree ver id (bs "eth_sendTransaction") (p0 :: rest)) -> id <> JNull ->
+    decode_transaction parse_int p0 = Ok tx -> tx_from tx = Some f -> dec_address f = Ok a ->
+    exists status tree frames,
+      rpcHandler parse_int lex accounts sign_with backend chain body order = Ok (status, tree, [frames]) /\
+      tree_member (bs "id") tree = Some id /\
+      let pre := match tx_nonce tx with Some _ => [] | None => [count_frame a] end in
+      ((exists nonce raw,
+          frames = pre ++ [raw_frame raw] /\
+          nonce_source parse_int backend tx a nonce pre /\
+          In a accounts /\
+          raw_recovers_to H ecrecover raw (Z.to_N chain) a (requested_format tx)
+                          (requested_fields (set_nonce tx nonce)))
+       \/ (frames = pre /\ status = 500%N /\ tree_member (bs "result") tree = None)).
+Proof. exact send_tx_end_to_end. Qed.
+Print Assumptions C09_send_tx_end_to_end.
+
 (* 2. Nothing is submitted on failure.  (a) A raw-transaction frame leaves the proxy for an
       eth_sendTransaction request ONLY IF the parameter decoded, `from` parsed to an address the
       wallet holds, the wallet signed, and the bytes recover to that address with the requested
